@@ -197,6 +197,18 @@ func c16Scenario(r *rand.Rand, caseN int) (string, map[string]interface{}) {
 		goneF(false, 1, 2)
 		sleepA(4 + 2*r.Float64())
 		regain(1)
+	} else if caseN%8 == 6 {
+		// the only pending item is received (the announce table becomes empty), then an announcement arrives
+		// while suspended and nothing else happens after the suspension ends
+		announce(peers[r.Intn(3)], 1)
+		sleepA(0.3 + r.Float64())
+		goneF(true, 1)
+		sleepA(0.2 + 2*r.Float64())
+		setSuspend(true)
+		announce(peers[r.Intn(3)], 2)
+		sleepA(1 + r.Float64())
+		setSuspend(false)
+		overlap = true
 	} else if caseN%8 == 3 {
 		// one item announced once while suspended, another announced a dozen times by all peers
 		sleepA(1.5)
